@@ -135,6 +135,16 @@ def build_session(args):
     sid, specs, seed = args
     rng = random.Random(seed)
     session = []
+
+    def add_view(chain, info):
+        names = all_names(chain, set())
+        nh = {n: html_of(n) for n in names}
+        if len(set(nh.values())) != len(nh):
+            return                            # two names with the same HTML spelling cannot be told apart in the cells
+        obs, dot = observe_graph(chain, nh)
+        (m, entries), = chain.items()
+        session.append({"chain": {"m": m, "entries": entries_of(entries, lambda x: x)}, "obs": obs, "info": info, "dot": dot})
+
     for kind, payload in specs:
         if kind == "dec":
             src, mother = payload[0], payload[1]
@@ -150,23 +160,18 @@ def build_session(args):
             p, err, _ = decio.parse_text(text)
             if p is None:
                 raise Machinery(f"C15 file does not parse: {err!r}\n{text}")
-            chain = p.build_decay_chains(cz.name(mother), stable_particles=payload[2] if len(payload) > 2 else [])
-            info = text
+            m = cz.name(mother)
+            # the same table drawn several times in one process: fully unfolded, with every daughter kept stable
+            # (the same daughter lists, once with and once without decaying daughters), with one daughter stable
+            alld = sorted({d for mode in p.list_decay_modes(m) for d in mode})
+            variants = [[], alld] + ([[rng.choice(alld)]] if alld else [])
+            rng.shuffle(variants)
+            for st in variants[: rng.randint(1, 3)]:
+                add_view(p.build_decay_chains(m, stable_particles=st), text)
         else:
             c = cio.norm_chain(payload)
             ccz = cio.ChainCZ(rng, cio.chain_names(c), real_only=rng.random() < 0.5)
-            chain = cio.build_chain(ccz, c, rng=rng, bf_float=True).to_dict()
-            info = json.dumps(c)
-        names = all_names(chain, set())
-        nh = {}
-        for n in names:
-            h = html_of(n)
-            nh[n] = h
-        if len(set(nh.values())) != len(nh):
-            continue                          # two names with the same HTML spelling cannot be told apart in the cells
-        obs, dot = observe_graph(chain, nh)
-        (m, entries), = chain.items()
-        session.append({"chain": {"m": m, "entries": entries_of(entries, lambda x: x)}, "obs": obs, "info": info, "dot": dot})
+            add_view(cio.build_chain(ccz, c, rng=rng, bf_float=True).to_dict(), json.dumps(c))
     return {"sid": sid, "views": session}
 
 
